@@ -122,9 +122,12 @@ pub fn build_graph<IntT: for<'a> UInt<'a>>(
         });
 
     let mut all_kmers: KmerGraph<IntT> = all_kmers.into_iter().collect();
-    // edges were pushed by several threads: fix their order so results do not depend on timing
+    // edges were pushed by several threads: fix their order so results do not depend on timing.
+    // A split k-mer with self-complementary arms yields each of its edges twice (once per strand):
+    // drop the copies, or the node looks like a branch point to the compaction and the path search
     for next_kmers in all_kmers.values_mut() {
         next_kmers.sort_unstable();
+        next_kmers.dedup();
     }
     let kmer_samples: KmerSamples<IntT> = kmer_samples.into_iter().collect();
 
